@@ -141,3 +141,13 @@ CONTRACTS[F + "counts_to_csr_data"] = dict(
         "forall(0, len(indices), lambda k: 0 <= indices[k] and indices[k] < col_dict_size)",
     ])},
 )
+
+# bytes of a string for the hashed LZ variant: characters above 255 are bracketed by zero bytes (memory / definedness only)
+CONTRACTS[F + "unicode_to_uint8"] = dict(
+    params=dict(string="str"), requires=[], returns="list[int]",
+    local_types=dict(result="list[int]"),
+    ensures=["len(result) >= len(string)", "forall(0, len(result), lambda k: 0 <= result[k] and result[k] <= 255)"],
+    loops={"for#1": dict(invariant=["len(result) >= _k_for1", "forall(0, len(result), lambda k: 0 <= result[k] and result[k] <= 255)"]),
+           "while#1": dict(invariant=["ord_char >= 0", "len(result) >= _k_for1", "forall(0, len(result), lambda k: 0 <= result[k] and result[k] <= 255)"],
+                           decreases="ord_char")},
+)
